@@ -404,6 +404,7 @@ FWD_QUICK_PROFILES = {
     'n2-milestones': dict(PLAIN, n=2, milestones=True, scenarios=[(0, -1), (4, 0)]),
     'n2-none-values': dict(PLAIN, n=2, est_none=True, spent_none=True, default_estimate=True, scenarios=[(0, -1)]),
     'n2-resources': dict(PLAIN, n=2, resources=['r', 'q'], calendars=['sparse'], scenarios=[(5, 0)]),
+    'n2-two-calendars': dict(PLAIN, n=2, resources=['r', 'q'], calendars=['default', 'sparse'], links=False, hierarchy=False, scenarios=[(0, -1)]),
     'n2-fraction': dict(PLAIN, n=2, calendars=['fraction'], grid=8, E=6, scenarios=[(1, -1)]),
     'n2-unbalanced': dict(PLAIN, n=2, balance=[False], scenarios=[(0, -1), (4, 2)]),
     'n3-summary-values': dict(PLAIN, n=3, summary_values=True, summary_resource=True, links=False, scenarios=[(2, -1)]),
